@@ -87,6 +87,14 @@ MUTANTS = {
             ('locs-string-sort', 'circuit.py', "                path = [m[1]] + [int(v) for v in re.split(r'[_\\[\\]]+', m[2]) if len(v) > 0]", "                path = [m[1]] + [v for v in re.split(r'[_\\[\\]]+', m[2]) if len(v) > 0]"),
             ('rev-latch-not-cut', 'circuit.py', "                if visit_count[pred] == n_outs(pred) and 'dff' not in pred.kind.lower() and 'latch' not in pred.kind.lower():", "                if visit_count[pred] == n_outs(pred) and 'dff' not in pred.kind.lower():"),
             ('line-order-skips-second-output', 'circuit.py', "        for n in self.topological_order():\n            for line in n.outs:\n                if line is not None:\n                    yield line", "        for n in self.topological_order():\n            for line in n.outs[:1] if 'dff' in n.kind.lower() else n.outs:\n                if line is not None:\n                    yield line")],
+    'C11': [('range-descending', 'verilog.py', "        return range(left, right+1) if left <= right else range(left, right-1, -1)", "        return range(left, right+1) if left <= right else range(right, left+1)"),
+            ('const-bit-order', 'verilog.py', '                l.insert(0, "1\'b1" if (const & 1) else "1\'b0")', '                l.append("1\'b1" if (const & 1) else "1\'b0")'),
+            ('reader-pin-implicit', 'verilog.py', "                    Line(c, fork, (n, self.tlib.pin_index(stmt.type, p)))", "                    Line(c, fork, n)"),
+            ('escaped-name', 'verilog.py', "        return s[1:-1] if s[0] == '\\\\' else s", "        return s[1:] if s[0] == '\\\\' else s"),
+            ('bench-driver-order', 'bench.py', "        for d in drivers: Line(self.c, d, cell)", "        for d in reversed(drivers): Line(self.c, d, cell)"),
+            ('port-position', 'verilog.py', "                    if name in positions:\n                        c.io_nodes[positions[name]] = n", "                    if name in positions:\n                        c.io_nodes[len(positions) - 1 - positions[name]] = n"),
+            ('concat-order', 'verilog.py', "            if isinstance(a, list):\n                sigs += a", "            if isinstance(a, list):\n                sigs += a[::-1]"),
+            ('branchfork-extra-cell', 'verilog.py', '                        branchfork = Node(c, fork.name + "~" + n.name + "/" + p)', '                        branchfork = Node(c, fork.name + "~" + n.name + "/" + p, "BUF1" if p == "S" else "__fork__")')],
 }
 
 
